@@ -40,8 +40,8 @@ func cards(ss []string) []int {
 	return r
 }
 
-// TLC integers are 32 bit: amounts are clipped (sign preserved) to +-2^30
-const clipMax = int64(1) << 30
+// TLC integers are 32 bit: amounts are clipped (sign preserved) to +-2*10^8 (sums over 10 seats stay below 2^31)
+const clipMax = int64(200000000)
 
 func clip(x int64) int64 {
 	if x > clipMax {
